@@ -8,6 +8,8 @@ samples that meet). The theorems below cover the parts that agree and exhibit th
 import PromqlVerif.Proofs.Den
 import PromqlVerif.Proofs.JoinPos
 import PromqlVerif.Proofs.JoinTables
+import PromqlVerif.Proofs.TheoremB
+import PromqlVerif.Proofs.PlanContract
 namespace PromqlVerif.C05
 open PromqlVerif Val
 
@@ -213,6 +215,71 @@ theorem engOp_vector_vector (c : Ctx V) (op : String) (bool : Bool) (m : Matchin
   rw [engOp]
   simp only [hl, hr, bind, Except.bind, hop, Bool.not_true, Bool.false_eq_true, if_false, hls, hrs, Bool.or_self, hc,
     show (Card.oneToOne == Card.oneToMany) = false from rfl, pure, Except.pure]
+
+/-- the fragment of Theorem B is well-typed in the sense of the contract theorem -/
+theorem frag_wt {P : Matching → Prop} (b : Bool) (e : Expr V) (h : Frag b e) : WT P b e := by
+  induction h with
+  | num v => exact .num v
+  | time => exact .time
+  | pi => exact .pi
+  | vsel s => exact .vsel s
+  | rangefn fn s r hfn => exact .rangefn fn s r hfn
+  | neg b a _ ih => exact .neg b a ih
+  | pos b a _ ih => exact .pos b a ih
+  | paren b a _ ih => exact .paren b a ih
+  | simple fn a hfn _ ih => exact .simple fn a hfn ih
+  | scalar a _ ih => exact .scalar a ih
+  | vector a _ ih => exact .vector a ih
+  | clampMin a lo _ _ iha ihlo => exact .clampMin a lo iha ihlo
+  | clampMax a hi _ _ iha ihhi => exact .clampMax a hi iha ihhi
+  | clamp a lo hi _ _ _ iha ihlo ihhi => exact .clamp a lo hi iha ihlo ihhi
+  | stepInvNum v => exact .stepInvNum v
+  | binVS op bl m a sc _ _ _ iha ihs => exact .bin op bl m false true a sc (fun _ h => by cases h) iha ihs
+  | binSV op bl m sc a _ _ _ ihs iha => exact .bin op bl m true false sc a (fun h => by cases h) ihs iha
+  | binSS op bl m x y _ _ _ ihx ihy => exact .bin op bl m true true x y (fun h => by cases h) ihx ihy
+  | stepInv b a hn _ ih => exact .stepInv b a hn ih
+
+/-- **a vector-to-vector operator over two expressions of the Theorem-B fragment**: one-to-one
+matching, no include labels, pairwise distinct match keys among the series of each operand. The
+operator `engOp` builds emits, at every step, the reference value of `l op r` up to order: the
+children deliver the reference values of `l` and `r` (Theorem B) with valid, pairwise distinct IDs
+(the contract theorem, C18), and the join is right (`vector_matching_with_unique_keys`). -/
+theorem vector_matching_over_fragment (c : Ctx V) (hq : c.q.noDupCheck = true) (op : String) (bool : Bool)
+    (m : Matching) (hc : m.card = .oneToOne) (hincl : m.incl = []) (hop : engineBinOps.contains op = true)
+    (l r : Expr V) (hl : Frag false l) (hr : Frag false r) (lo ro : OpSem V)
+    (hlo : engOp c l = .ok lo) (hro : engOp c r = .ok ro)
+    (hH : ∀ i i', i < lo.series.length → i' < lo.series.length →
+      sigLabels m (lo.series.getD i []) = sigLabels m (lo.series.getD i' []) → i = i')
+    (hL : ∀ i i', i < ro.series.length → i' < ro.series.length →
+      sigLabels m (ro.series.getD i []) = sigLabels m (ro.series.getD i' []) → i = i')
+    (t : Int) :
+    ∃ o ys out, engOp c (.bin op bool m l r) = .ok o ∧ o.step t = .ok ys ∧
+      eval c t (.bin op bool m l r) = .ok (.vec out) ∧ (denote o.series ys).Perm out := by
+  obtain ⟨lo', hlo', _, hlstep⟩ := frag_inv c hq false l hl
+  obtain ⟨ro', hro', _, hrstep⟩ := frag_inv c hq false r hr
+  have e1 : lo' = lo := by rw [hlo] at hlo'; exact (Except.ok.inj hlo').symm
+  have e2 : ro' = ro := by rw [hro] at hro'; exact (Except.ok.inj hro').symm
+  subst e1 e2
+  obtain ⟨xs, hxs, hxv, hxe⟩ := hlstep t
+  obtain ⟨ys, hys, hyv, hye⟩ := hrstep t
+  simp only [Bool.false_eq_true, if_false] at hxe hye
+  have hcl := (plan_contract (P := fun _ => True) c false l (frag_wt false l hl) lo' hlo).1 t xs hxs
+  have hcr := (plan_contract (P := fun _ => True) c false r (frag_wt false r hr) ro' hro).1 t ys hys
+  obtain ⟨eng, ref, heng, href, hperm⟩ := vector_matching_with_unique_keys op bool m hc hincl lo'.series ro'.series
+    hH hL xs ys hxv hyv hcl.2 hcr.2
+  have hls : l.isScalar = false := frag_isScalar false l hl
+  have hrs : r.isScalar = false := frag_isScalar false r hr
+  cases hstep : engVectorBinop op bool .oneToOne (engJoin m (!(dropsName op || bool)) lo'.series ro'.series) xs ys with
+  | error e => rw [hstep] at heng; cases heng
+  | ok zs =>
+    rw [hstep] at heng
+    simp only [Except.map, Except.ok.injEq] at heng
+    refine ⟨_, zs, ref, engOp_vector_vector c op bool m l r lo' ro' hlo hro hop hls hrs hc, ?_, ?_, ?_⟩
+    · simp only [hxs, hys, bind, Except.bind, hstep]
+    · rw [eval]
+      simp only [hxe, hye, bind, Except.bind, href, dedupCheck, hq, Bool.not_true, Bool.false_and, Bool.false_eq_true,
+        if_false]
+    · rw [heng]; exact hperm
 
 /-- a concrete step: two series per side, matched on `a`; one pair matches -/
 example :
